@@ -584,7 +584,7 @@ ini_val_set(const ini_p ini,
     const uint8_t *val_name, const size_t val_name_size,
     const uint8_t *val, size_t val_size) {
 	int error;
-	size_t sect_off, val_off, data_size;
+	size_t sect_off, val_off, data_size, val_off_in_line;
 	size_t _sect_name_size = sect_name_size;
 	size_t _val_name_size = val_name_size;
 	ini_line_p line = NULL;
@@ -687,19 +687,27 @@ alloc_new_line:
 			goto alloc_new_line;
 		if (line->data_allocated_size > data_size)
 			goto update_value;
-		/* Realloc. */
+		/* Realloc. val may point into this record (value from
+		 * ini_val_get()): keep it as offset, record may move. */
+		val_off_in_line = (~((size_t)0));
+		if (NULL != val && line->data <= val &&
+		    (line->data + line->data_allocated_size) > val) {
+			val_off_in_line = (size_t)(val - line->data);
+		}
 		line = realloc(ini->lines[val_off], (sizeof(ini_line_t) +
 		    data_size + INI_LINE_ALLOC_PADDING));
 		if (NULL == line)
 			return (errno);
-		if (ini->lines[val_off] == line)
-			goto update_value;
-		/* Update pointers. */
+		/* Update pointers and size: allways, same address with new
+		 * size happen too. */
 		ini->lines[val_off] = line;
 		line->data = (uint8_t*)(line + 1);
 		line->data_allocated_size = (data_size + INI_LINE_ALLOC_PADDING);
 		line->name = line->data;
 		line->val = (line->name + line->name_size + 1);
+		if ((~((size_t)0)) != val_off_in_line) {
+			val = (line->data + val_off_in_line);
+		}
 	}
 
 update_value:
